@@ -53,6 +53,7 @@ TraceNext ==
           /\ Chk(C16_WaivedAccepted', "P", e, "C16_WaivedAccepted")
           /\ Chk(C16_OneWinner', "P", e, "C16_OneWinner")
           /\ Chk(C16_NoneNotSilent', "P", e, "C16_NoneNotSilent")
+          /\ Chk(C16_Answered', "P", e, "C16_Answered")
           /\ Chk(TypeOK', "I", e, "TypeOK")
           /\ Chk(I_Resolved', "I", e, "I_Resolved")
           /\ Chk(I_NonOccAll', "I", e, "I_NonOccAll")
